@@ -1013,6 +1013,11 @@ fn own_words(db: &anything::Db, s: &shipped::Shipped, perms: Perms, only: &Optio
             continue;
         }
         typeable += 1;
+        // a fact with a word that is not all lower-case letters (an apostrophe, a dot, a digit, a
+        // capital) is always asked in every order of its words: there are few of them, and word-level
+        // rewriting of phrases shows in some orders only
+        let unusual = words.iter().any(|w| !w.chars().all(|c| c.is_lowercase() && c.is_alphabetic()));
+        let perms = if unusual && words.len() <= 5 { Perms::All } else { perms };
         let orders: Vec<Vec<usize>> = match perms {
             Perms::Identity => vec![(0..words.len()).collect()],
             Perms::Reverse => {
@@ -1610,6 +1615,22 @@ fn main() {
             Op::Drop { slot } => {
                 if let Some(s) = slots.get_mut(*slot) {
                     *s = None;
+                }
+            }
+            Op::HoldWriter { ms } => {
+                let xdg = std::env::var("XDG_DATA_HOME").unwrap_or_default();
+                let index_dir = std::path::Path::new(&xdg).join("facts").join("index");
+                let marker = std::path::Path::new(&xdg).join(".verif-holding");
+                let res = tantivy::Index::open_in_dir(&index_dir).map_err(|e| e.to_string()).and_then(|ix| ix.writer_with_num_threads(1, 15_000_000).map_err(|e| e.to_string()));
+                match res {
+                    Ok(w) => {
+                        let _ = std::fs::write(&marker, b"");
+                        std::thread::sleep(std::time::Duration::from_millis(*ms));
+                        drop(w);
+                        let _ = std::fs::remove_file(&marker);
+                        emit(&h.log, &Event::Held { held: true, why: String::new() });
+                    }
+                    Err(e) => emit(&h.log, &Event::Held { held: false, why: e.lines().next().unwrap_or("").chars().take(120).collect() }),
                 }
             }
         }
